@@ -11,7 +11,8 @@
 (* Values are compared with the definition for start = FALSE (trimmed:     *)
 (* the first npts samples); for start = TRUE the statement fixes only the  *)
 (* length when trimmed, the accepted relation is: each row is an integer   *)
-(* index shift (zero filled / cropped) of the start = FALSE row.           *)
+(* index shift (zero filled / cropped) of the start = FALSE row, by a      *)
+(* number of samples within one of (stt - tt)/dt.                          *)
 (***************************************************************************)
 EXTENDS Surface, Json, IOUtils, TLC, VerdictLib
 
@@ -33,9 +34,14 @@ EnergyRowCheck(k) ==
                /\ (R.trim => Len(y) = n)
                /\ ((~R.trim /\ ~R.start) => Len(y) = Len(ref))
                /\ Len(c) = Len(y)
+      \* start = TRUE: "the same start time as the record" -- the row is delayed by the travel time from the input location to
+      \* the surface minus the travel time to the depth, (stt - tt)/dt samples; how a fractional delay is made a whole number of
+      \* samples is left open (within one sample either way)
+      q == FDiv(FSub(R.stt, R.tts[k]), R.dt)
+      cand == {s \in (-Len(ref))..Len(ref) : FLe(FAbs(FSub(FInt(s), q)), FStr("1.000000001"))}
       valOK == IF ~R.start
                THEN \A j \in 1..Len(y) : Close(y[j], ref[j], tol)
-               ELSE \E s \in (-Len(ref))..Len(ref) : IsShiftOf(y, ref, s, tol)
+               ELSE \E s \in cand : IsShiftOf(y, ref, s, tol)
       cumRef == CumAbs(y)
       cumOK == /\ \A j \in 1..Len(c) : Close(c[j], cumRef[j], FMul(FStr("1e-10"), FAdd(cumRef[Len(c)], FStr("1e-300"))))
                /\ \A j \in 1..(Len(c) - 1) : FLe(c[j], c[j + 1])
@@ -45,7 +51,7 @@ EnergyRowCheck(k) ==
       atol == FMul(FStr("1e-12"), FAdd(FMaxAbs(accRef), FStr("1e-300")))
       motLen == hasMot => (Len(R.mot) = Len(R.tts) /\ Len(R.mot[k]) = Len(y))
       motOK == hasMot => IF ~R.start THEN \A j \in 1..Len(R.mot[k]) : Close(R.mot[k][j], accRef[j], atol)
-                         ELSE \E s \in (-Len(accRef))..Len(accRef) : IsShiftOf(R.mot[k], accRef, s, atol)
+                         ELSE \E s \in cand : IsShiftOf(R.mot[k], accRef, s, atol)
       zeroOK == (R.nodal /\ FEq(R.tts[k], Zero) /\ FEq(R.ru[k], R.rd[k])) => \A j \in 1..Len(y) : FEq(y[j], Zero)
   IN IF ~lenOK \/ ~motLen THEN {"Lengths"}
      ELSE Fails(motOK, "ShiftedWaveDefinition") \cup Fails(valOK, IF R.start THEN "StartIsShift" ELSE "EnergyDef")
